@@ -65,7 +65,7 @@ def _plan(draw, max_len, narrow=True):
     h = draw(st.sampled_from(ALL))
     numeric = ["f", "f", "f", "i", "i", "b"] + (["f32", "i32"] if narrow else [])
     kind = draw(st.sampled_from(numeric + ["d", "d", "t", "t", "tn"] if h in ORD else numeric))
-    n = draw(st.one_of(st.sampled_from([1, 2]), st.integers(1, max_len)))
+    n = draw(st.one_of(st.sampled_from([1, 2, 0]), st.integers(1, max_len)))          # also the frame without rows
     pool = POOLS[kind]
     if draw(st.booleans()):
         pool = pool[:4]
